@@ -106,8 +106,8 @@ def judge_doc(doc, cases, variants):
         if not absdoc.same_table(loc.doc, doc):
             raise core.MachineryError("concretisation does not reload to the abstract document: %r" % text)
         for c in cases:
-            if c["err"] or c["n"] == 0 or c.get("names"):
-                continue
+            if c["err"] or c["n"] == 0 or c.get("names") or "COLLECTOR" in c["ty"]:
+                continue        # collector results are virtual: outside C02's statement ("designate no single node")
             stats["cases"] += 1
             # the query itself in dot or in slash notation (the reported path must not depend on how the query was spelled);
             # which one: by case index, so both notations meet every segment kind and document family
